@@ -106,6 +106,10 @@ type c16Inst struct {
 	open2    *c16Open // a logout of appchain A submitted while another proposal on A is open (it pauses that one)
 	objs     map[string]*c16Obj
 	rules    bool // the rule exploration (proof world: chains F and W)
+	// concurrent exploration: per object a stack of open proposals (a logout may be submitted on
+	// top of an open freeze / activate proposal of the same object, which it pauses), several
+	// objects governed at the same time
+	stacks map[string][]*c16Open
 }
 
 type c16Open struct {
@@ -123,6 +127,10 @@ type c16Step struct {
 	expectProbe string // accept | beginfail | reject
 	why         string
 	chainBefore string // conclusion of a rule update: status of the appchain before the update paused it
+	// concurrent exploration: the event of the proposal concluded by this step, and the events of
+	// the proposals that were open per object before the step
+	concluded string
+	openEv    map[string][]string
 	// for governance steps
 	target   string
 	trigger  string // submit:<event> | approve | reject
@@ -209,6 +217,14 @@ func (in *c16Inst) apply(op string) bool {
 	w := in.w
 	f := strings.Split(op, ":")
 	st := &c16Step{desc: op, before: in.readAll()}
+	if len(in.stacks) > 0 {
+		st.openEv = map[string][]string{}
+		for n, stk := range in.stacks {
+			for _, o := range stk {
+				st.openEv[n] = append(st.openEv[n], o.event)
+			}
+		}
+	}
 	switch f[0] {
 	case "sub": // sub:<obj>:<event>
 		o := in.objs[f[1]]
@@ -333,6 +349,53 @@ func (in *c16Inst) apply(op string) bool {
 			in.open = nil // the paused proposal is rejected together with it
 		}
 		in.open2 = nil
+	case "csub": // csub:<obj>:<event>: like sub, but other objects may have open proposals and a logout may go on top of the object's own open proposal
+		o := in.objs[f[1]]
+		stk := in.stacks[f[1]]
+		if o == nil || len(stk) >= 2 || (len(stk) == 1 && (f[2] != "logout" || stk[0].event == "logout")) {
+			return false
+		}
+		method := map[string]string{"freeze": "Freeze", "activate": "Activate", "logout": "Logout"}[f[2]] + map[string]string{"appchain": "Appchain", "service": "Service"}[o.kind]
+		st.res = w.Block(w.InvokeTx(c16Submitter(o, f[2]), o.contract, method, pb.String(o.id), pb.String("reason")))
+		st.target, st.trigger = f[1], "submit:"+f[2]
+		if rc := st.res.Receipts[0]; rc.IsSuccess() {
+			st.accepted = true
+			if in.stacks == nil {
+				in.stacks = map[string][]*c16Open{}
+			}
+			in.stacks[f[1]] = append(append([]*c16Open{}, stk...), &c16Open{id: fix.ProposalID(rc), obj: f[1], event: f[2], lastStatus: st.before[f[1]]})
+		}
+	case "cconclude": // cconclude:<obj>:approve|reject: three votes on the object's topmost open proposal
+		stk := in.stacks[f[1]]
+		if len(stk) == 0 {
+			return false
+		}
+		top := stk[len(stk)-1]
+		var first *pb.Receipt
+		for i := 0; i < 3; i++ {
+			st.res = w.Block(w.VoteTx(i, top.id, f[2]))
+			if i == 0 {
+				first = st.res.Receipts[0]
+			}
+			if rc := st.res.Receipts[0]; !rc.IsSuccess() && !strings.Contains(string(rc.Ret), "cannot be voted on") {
+				st.why = fmt.Sprintf("vote %d failed: %s", i+1, trunc(string(rc.Ret)))
+			}
+		}
+		st.target, st.trigger, st.accepted = f[1], f[2], true
+		if first != nil && !first.IsSuccess() {
+			// the proposal cannot be voted on (paused by a cascade of the owning appchain, or
+			// already concluded by it): a refused operation, the proposal stays where it is
+			st.accepted = false
+			st.desc = fmt.Sprintf("%s (%s of %s: vote refused)", op, top.event, f[1])
+			break
+		}
+		st.concluded = top.event
+		st.desc = fmt.Sprintf("%s (%s of %s, %d open on it)", op, top.event, f[1], len(stk))
+		if len(stk) == 2 && f[2] == "approve" {
+			in.stacks[f[1]] = nil // the paused proposal is rejected together with the approved logout
+		} else {
+			in.stacks[f[1]] = append([]*c16Open{}, stk[:len(stk)-1]...)
+		}
 	case "rereg": // rereg:<service>: the chain's admin registers an EXISTING service again under a new name
 		o := in.objs[f[1]]
 		if o == nil || o.kind != "service" || in.open != nil {
@@ -439,6 +502,15 @@ func (in *c16Inst) check(c *mc.Ctx, path []string) {
 			if !direct && !cascade {
 				continue
 			}
+			if e.trigger == "cascade:unpause" && from == "pause" {
+				// the unlock proposes the service's paused proposal again: unpause (-> available)
+				// followed by that proposal's own event, both declared transitions
+				for _, ev := range st.openEv[name] {
+					if (ev == "freeze" && to == "freezing") || (ev == "activate" && to == "activating") {
+						okEdge = true
+					}
+				}
+			}
 			if o.kind == "rule" && e.trigger == "cascade:clear" && c16BuiltinRule[o.id] {
 				dst = "bindable" // declared in the rule FSM's callback: a built-in rule is bindable again after a clear
 			}
@@ -484,8 +556,27 @@ func (in *c16Inst) check(c *mc.Ctx, path []string) {
 				want = "" // available, or paused when the owning appchain is not available: judged by the invariant below
 			}
 		}
+		if st.trigger == "approve" && st.concluded != "" {
+			// the approved proposal's event decides, whatever detour the status took meanwhile
+			want = map[string]string{"freeze": "frozen", "activate": "available", "logout": "forbidden"}[st.concluded]
+			if o.kind == "service" && st.concluded == "activate" && !c16Available[after["chainA"]] && strings.HasPrefix(o.id, fix.ChainA+":") {
+				want = "" // judged by the appchain / service invariant
+			}
+		}
 		if want != "" && to != want {
-			bad("wrong-status-after-step|"+o.kind+"|"+st.trigger+"|"+from+"->"+to, "%s should be %s after %s (was %s), it is %s", st.target, want, st.trigger, from, to)
+			cls := ""
+			if st.why != "" {
+				// the deciding vote itself failed: name the proposals open on OTHER objects (the cascade trips over them)
+				var oe []string
+				for n, evs := range st.openEv {
+					if n != st.target {
+						oe = append(oe, n+"/"+strings.Join(evs, "+"))
+					}
+				}
+				sort.Strings(oe)
+				cls = "|deciding-vote-fails|open:" + strings.Join(oe, ",")
+			}
+			bad("wrong-status-after-step|"+o.kind+"|"+st.trigger+"|"+from+"->"+to+cls, "%s should be %s after %s (was %s), it is %s %s", st.target, want, st.trigger, from, to, st.why)
 		}
 		// cascades of an appchain-level conclusion
 		if st.target == "chainA" && st.trigger == "approve" {
@@ -603,6 +694,16 @@ func (in *c16Inst) key() string {
 	if in.open2 != nil {
 		op += "|logout-on-top/" + in.open2.lastStatus
 	}
+	var sk []string
+	for n := range in.stacks {
+		sk = append(sk, n)
+	}
+	sort.Strings(sk)
+	for _, n := range sk {
+		for _, o := range in.stacks[n] {
+			op += "|" + n + "/" + o.event + "/" + o.lastStatus
+		}
+	}
 	used := ""
 	for _, p := range []string{"p1", "p2", "p3", "p5", "pw"} {
 		if in.nextReq[p] > 0 {
@@ -627,6 +728,32 @@ func c16RoleNode(c *mc.Ctx, depth int) {
 			in.status = in.readAll()
 			return in
 		},
+		Enabled: func(x mc.Instance, d int) []string { return ops },
+		Apply: func(x mc.Instance, op string, path []string) (bool, bool) {
+			return x.(*c16Inst).apply(op), false
+		},
+		Key:   func(x mc.Instance) string { return x.(*c16Inst).key() },
+		Check: func(x mc.Instance, path []string) { x.(*c16Inst).check(c, path) },
+		Close: func(x mc.Instance) { x.(*c16Inst).w.R.Close() },
+	}
+	b.Run()
+}
+
+// c16Concurrent: appchain A and its service A:s1 governed at the same time - every object may have
+// an open proposal, and a logout may be submitted on top of an object's own open freeze /
+// activate proposal (which it pauses; when the logout is rejected the paused proposal is
+// proposed again, when it is approved the paused one is rejected).
+func c16Concurrent(c *mc.Ctx, depth int) {
+	var ops []string
+	for _, o := range []string{"svcA1", "chainA"} {
+		for _, e := range []string{"freeze", "activate", "logout"} {
+			ops = append(ops, "csub:"+o+":"+e)
+		}
+		ops = append(ops, "cconclude:"+o+":approve", "cconclude:"+o+":reject")
+	}
+	ops = append(ops, "probe:p1", "probe:p3")
+	b := &mc.BFS{C: c, Name: "govmc-concurrent", MaxDepth: depth, EveryTransition: true,
+		Init:    func() mc.Instance { return newC16Inst() },
 		Enabled: func(x mc.Instance, d int) []string { return ops },
 		Apply: func(x mc.Instance, op string, path []string) (bool, bool) {
 			return x.(*c16Inst).apply(op), false
@@ -663,6 +790,7 @@ func C16(c *mc.Ctx) {
 	b.Run()
 	c16RoleNode(c, depth)
 	c16Rules(c, depth)
+	c16Concurrent(c, depth)
 	fix.Cleanup()
 	c.Set("rule_role_node", "second BFS over {submit freeze/activate/logout of governance admin 3's role; submit register/update/logout of a non-validating node; conclude the open proposal by 3 approvals or 3 rejections; restart}: every status change of the role / node record must be an edge of its declared state machine for the step's trigger, forbidden is absorbing, refused operations change nothing")
 	c.Set("rule_rules", "third BFS (world with a fabric-type chain F: three built-in rules, master = SimFabric; and chain W: built-in happy rule + a deployed WASM rule as master) over {UpdateMasterRule to each rule of F and W; LogoutRule of the deployed rule and of a built-in rule; freeze/activate/logout of appchain F; conclude the open proposal by 3 approvals or 3 rejections; restart}: every status change of a rule is an edge of the rule state machine for the step's trigger (candidate: bindable->binding->available|bindable; replaced master: available->unbinding->bindable|available; logout: bindable->forbidden; cleared with a logged-out appchain), the paused appchain follows available->frozen->available, at most one rule of a chain is available at any time and exactly one when no update is open, refused operations change nothing")
